@@ -205,6 +205,144 @@ Theorem C18_preprocess_spec_ok_sound : forall gf o recs x,
 Proof. exact pp_spec_ok_sound. Qed.
 Print Assumptions C18_preprocess_spec_ok_sound.
 
+(* ---- the timeout clause.  Every call has a duration class: slow a = true, it runs longer than the timeout;
+   false, its running time is negligible.  dispatch_spec is the sequential specification of the dispatcher,
+   independent of the worker count: an error when any call exceeds the timeout or raises, otherwise the list of
+   results in argument order.  respects_durations: no chunk with a slow call reports before the clock shows the
+   timeout (true of every real run, whatever the load); timely: in addition the clock only advances while a
+   chunk with a slow call runs ---- *)
+
+(* "a timeout surfaces as an error", parallel_execute, for EVERY worker count (one worker included): a batch
+   with a call exceeding the timeout never comes back as a list *)
+Theorem C18_execute_timeout_surfaces : forall (A B : Type) (f : A -> res B) slow cfg cpus t sched (cmds : list A),
+  respects_durations f slow (effective_cpus cfg cpus) (Some t) sched cmds = true -> existsb slow cmds = true ->
+  exists e, parallel_execute f cfg cpus (Some t) sched cmds = Err e.
+Proof. exact @execute_timeout_surfaces. Qed.
+Print Assumptions C18_execute_timeout_surfaces.
+
+(* ... and when no call raises the error is the timeout's RuntimeError (or the call does not return because
+   the schedule ends first) *)
+Theorem C18_execute_timeout_kind : forall (A B : Type) (f : A -> res B) slow cfg cpus t sched (cmds : list A) rs,
+  1 <= effective_cpus cfg cpus ->
+  respects_durations f slow (effective_cpus cfg cpus) (Some t) sched cmds = true -> existsb slow cmds = true ->
+  sequential f cmds = Ok rs ->
+  parallel_execute f cfg cpus (Some t) sched cmds = Err E_Runtime \/
+  parallel_execute f cfg cpus (Some t) sched cmds = Err E_Fuel.
+Proof. exact @execute_timeout_kind. Qed.
+Print Assumptions C18_execute_timeout_kind.
+
+(* parallel_function: the same clause wherever the pool is used; partial, because with one worker it is false
+   (next theorem) *)
+Theorem C18_function_timeout_surfaces_partial :
+  forall (A B : Type) (f : A -> res B) slow cfg cpus t sched (args : list A),
+  effective_cpus cfg cpus <> 1 ->
+  respects_durations f slow (effective_cpus cfg cpus) (Some t) sched args = true -> existsb slow args = true ->
+  exists e, parallel_function f cfg cpus (Some t) sched args = Err e.
+Proof. exact @function_timeout_surfaces_partial. Qed.
+Print Assumptions C18_function_timeout_surfaces_partial.
+
+(* finding C18-K2: the full statement is false for parallel_function with one worker - the shortcut never looks
+   at the timeout: a batch whose second call exceeds the timeout comes back as a list (whatever the schedule),
+   while the specification, and the same batch with two workers, give the timeout error *)
+Theorem C18_function_timeout_surfaces_cpus1_refuted :
+  exists (t : Z) (jobs : list (bool * res Z)) vs,
+    existsb fst jobs = true /\
+    dispatch_spec snd fst (Some t) jobs = Err E_Runtime /\
+    (forall sched, parallel_function snd 2 1 (Some t) sched jobs = Ok vs) /\
+    parallel_function snd 2 2 (Some t) [Start 0; Start 1; Finish 0; Tick] jobs = Err E_Runtime /\
+    timely snd fst 2 (Some t) [Start 0; Start 1; Finish 0; Tick] jobs = true.
+Proof.
+  exists 1, [(false, Ok 10); (true, Ok 11)], [10; 11].
+  split; [reflexivity|]. split; [reflexivity|]. split; [intros sched; reflexivity|].
+  split; vm_compute; reflexivity.
+Qed.
+Print Assumptions C18_function_timeout_surfaces_cpus1_refuted.
+
+(* for every worker count >= 1, every usable timeout and every timely schedule: the outcome of parallel_execute
+   IS the dispatcher's sequential specification (same list; or an error on both sides), unless the schedule
+   ends before get() returns *)
+Theorem C18_execute_equals_dispatch_spec :
+  forall (A B : Type) (f : A -> res B) slow cfg cpus timeout sched (cmds : list A),
+  1 <= effective_cpus cfg cpus -> timeout_pos timeout = true ->
+  timely f slow (effective_cpus cfg cpus) timeout sched cmds = true ->
+  parallel_execute f cfg cpus timeout sched cmds = Err E_Fuel \/
+  same_outcome (parallel_execute f cfg cpus timeout sched cmds) (dispatch_spec f slow timeout cmds).
+Proof. exact @execute_equals_dispatch_spec. Qed.
+Print Assumptions C18_execute_equals_dispatch_spec.
+
+(* parallel_function: the same, guarded: more than one worker, or no call exceeding the timeout *)
+Theorem C18_function_equals_dispatch_spec_partial :
+  forall (A B : Type) (f : A -> res B) slow cfg cpus timeout sched (args : list A),
+  1 <= effective_cpus cfg cpus -> timeout_pos timeout = true ->
+  timely f slow (effective_cpus cfg cpus) timeout sched args = true ->
+  effective_cpus cfg cpus <> 1 \/ any_exceeds slow timeout args = false ->
+  parallel_function f cfg cpus timeout sched args = Err E_Fuel \/
+  same_outcome (parallel_function f cfg cpus timeout sched args) (dispatch_spec f slow timeout args).
+Proof. exact @function_equals_dispatch_spec_partial. Qed.
+Print Assumptions C18_function_equals_dispatch_spec_partial.
+
+(* hence the outcome does not depend on the worker count: any two worker counts, each with its own timely
+   schedule, give the same list or both an error *)
+Theorem C18_execute_workers_irrelevant :
+  forall (A B : Type) (f : A -> res B) slow cfg1 cpus1 cfg2 cpus2 timeout sched1 sched2 (cmds : list A),
+  1 <= effective_cpus cfg1 cpus1 -> 1 <= effective_cpus cfg2 cpus2 -> timeout_pos timeout = true ->
+  timely f slow (effective_cpus cfg1 cpus1) timeout sched1 cmds = true ->
+  timely f slow (effective_cpus cfg2 cpus2) timeout sched2 cmds = true ->
+  parallel_execute f cfg1 cpus1 timeout sched1 cmds <> Err E_Fuel ->
+  parallel_execute f cfg2 cpus2 timeout sched2 cmds <> Err E_Fuel ->
+  same_outcome (parallel_execute f cfg1 cpus1 timeout sched1 cmds) (parallel_execute f cfg2 cpus2 timeout sched2 cmds).
+Proof. exact @execute_workers_irrelevant. Qed.
+Print Assumptions C18_execute_workers_irrelevant.
+
+(* not vacuous, for every worker count >= 1 and every timeout >= 1: a batch without slow calls whose calls all
+   return has a timely schedule under which it comes back in spite of the timeout *)
+Theorem C18_timely_completing_schedule_exists :
+  forall (A B : Type) (f : A -> res B) slow cfg cpus t (cmds : list A) rs,
+  1 <= effective_cpus cfg cpus -> 1 <= t -> existsb slow cmds = false -> sequential f cmds = Ok rs ->
+  exists sched, timely f slow (effective_cpus cfg cpus) (Some t) sched cmds = true /\
+                parallel_execute f cfg cpus (Some t) sched cmds = Ok rs.
+Proof. exact @timely_completing_schedule_exists. Qed.
+Print Assumptions C18_timely_completing_schedule_exists.
+
+(* the decidable specification with duration classes, evaluated on every implementation output of
+   parallel_function / parallel_execute at run time (jobs = (duration class, sequential outcome)): an accepted
+   output is the outcome of dispatch_spec; an accepted list means no job exceeds the timeout and is the
+   sequential list; the model meets it under timely schedules (parallel_function: outside finding C18-K2);
+   it is at least as strict as spec_ok *)
+Theorem C18_timed_spec_ok_sound : forall cfg cpus timeout (jobs : list (bool * res Z)) out,
+  1 <= effective_cpus cfg cpus -> tspec_ok cfg cpus timeout jobs out = true ->
+  same_outcome out (dispatch_spec snd fst timeout jobs).
+Proof. exact tspec_ok_sound. Qed.
+Print Assumptions C18_timed_spec_ok_sound.
+
+Theorem C18_timed_spec_ok_list_sound : forall cfg cpus timeout (jobs : list (bool * res Z)) vs,
+  tspec_ok cfg cpus timeout jobs (Ok vs) = true ->
+  any_exceeds fst timeout jobs = false /\ sequential snd jobs = Ok vs.
+Proof. exact tspec_ok_list_sound. Qed.
+Print Assumptions C18_timed_spec_ok_list_sound.
+
+Theorem C18_execute_meets_timed_spec : forall cfg cpus timeout sched (jobs : list (bool * res Z)),
+  timeout_pos timeout = true ->
+  timely snd fst (effective_cpus cfg cpus) timeout sched jobs = true ->
+  parallel_execute snd cfg cpus timeout sched jobs <> Err E_Fuel ->
+  tspec_ok cfg cpus timeout jobs (parallel_execute snd cfg cpus timeout sched jobs) = true.
+Proof. exact execute_meets_tspec. Qed.
+Print Assumptions C18_execute_meets_timed_spec.
+
+Theorem C18_function_meets_timed_spec_partial : forall cfg cpus timeout sched (jobs : list (bool * res Z)),
+  timeout_pos timeout = true ->
+  timely snd fst (effective_cpus cfg cpus) timeout sched jobs = true ->
+  finding_K2 cfg cpus timeout jobs = false ->
+  parallel_function snd cfg cpus timeout sched jobs <> Err E_Fuel ->
+  tspec_ok cfg cpus timeout jobs (parallel_function snd cfg cpus timeout sched jobs) = true.
+Proof. exact function_meets_tspec_partial. Qed.
+Print Assumptions C18_function_meets_timed_spec_partial.
+
+Theorem C18_timed_spec_refines_spec : forall cfg cpus timeout (jobs : list (bool * res Z)) out,
+  tspec_ok cfg cpus timeout jobs out = true -> spec_ok cfg cpus timeout (map snd jobs) out = true.
+Proof. exact tspec_refines_spec. Qed.
+Print Assumptions C18_timed_spec_refines_spec.
+
 (* ---- non-vacuity: concrete inputs meeting the hypotheses ---- *)
 (* 3 workers, 5 calls, completion order 2,1,0 then 4,3: the list comes back in argument order *)
 Example C18_ex_reordered :
@@ -252,3 +390,19 @@ Example C18_ex_preprocess :
   pre_process_inproc (fun r => Ok r) o recs = pre_process (fun r => Ok r) o 2 sched sched recs /\
   gf_keeps (fun r => Ok r).
 Proof. split; [vm_compute; reflexivity|]. split; [vm_compute; reflexivity|]. intros r r' H. inversion H. reflexivity. Qed.
+
+(* the timeout clause with ONE worker in the pool (parallel_execute has no shortcut) and with three: jobs 0 and 2
+   are negligible, job 1 exceeds the timeout of 2 ticks.  The schedules are timely; the outcome is the timeout
+   error, as dispatch_spec says; the decidable specification accepts it and rejects the list *)
+Example C18_ex_timeout_one_worker :
+  let jobs := [(false, Ok 10); (true, Ok 11); (false, Ok 12)] in
+  let s1 := [Start 0; Finish 0; Start 0; Tick; Tick; Finish 0; Start 0; Finish 0] in
+  let s3 := [Start 0; Start 1; Start 2; Finish 2; Finish 0; Tick; Tick; Finish 1] in
+  timely snd fst 1 (Some 2) s1 jobs = true /\ timely snd fst 3 (Some 2) s3 jobs = true /\
+  parallel_execute snd 2 1 (Some 2) s1 jobs = Err E_Runtime /\
+  parallel_execute snd 2 3 (Some 2) s3 jobs = Err E_Runtime /\
+  dispatch_spec snd fst (Some 2) jobs = Err E_Runtime /\
+  parallel_execute snd 2 1 None s1 jobs = Ok [10; 11; 12] /\
+  tspec_ok 2 1 (Some 2) jobs (Err E_Runtime) = true /\ tspec_ok 2 1 (Some 2) jobs (Ok [10; 11; 12]) = false /\
+  finding_K2 2 1 (Some 2) jobs = true /\ finding_K2 2 3 (Some 2) jobs = false.
+Proof. vm_compute. repeat split; reflexivity. Qed.
